@@ -91,9 +91,9 @@ VAL = {
                          "v2": lambda: ReservationInfo(reservation_id="r2", error_message="went wrong")},
     "structural_info": {"v1": lambda: StructuralInfo(adm_graph_ids=["a1", "a2"]),
                         "v2": lambda: StructuralInfo(sub_graph_id="sg")},
-    "details": {"v1": lambda: "some details", "v2": lambda: "other, with 'quotes' and \"more\""},
+    "details": {"v0": lambda: "", "v1": lambda: "some details", "v2": lambda: "other, with 'quotes' and \"more\""},
     "node_map": {"v1": lambda: ("g1", "n1"), "v2": lambda: ("g2", "n2")},
-    "stitch_node": {"v1": lambda: True},
+    "stitch_node": {"v0": lambda: False, "v1": lambda: True},
     "tags": {"v1": lambda: Tags("t1", "t2"), "v2": lambda: Tags("blue")},
     "flags": {"v1": lambda: Flags(auto_config=True), "v2": lambda: Flags(ptp=True, auto_mount=True)},
     "mf_data": {"v1": lambda: MeasurementData('{"m": 1}'), "v2": lambda: MeasurementData({"m": [1, 2], "x": "y"})},
@@ -105,7 +105,7 @@ VAL = {
     "management_ip": {"v1": lambda: "192.168.10.10", "v2": lambda: "2001:db8::1"},
     "allocation_constraints": {"v1": lambda: "constraint one", "v2": lambda: "constraint two"},
     "service_endpoint": {"v1": lambda: "192.168.20.1", "v2": lambda: "10.0.0.1"},
-    "site": {"v1": lambda: "RENC", "v2": lambda: "UKY"},
+    "site": {"v0": lambda: "", "v1": lambda: "RENC", "v2": lambda: "UKY"},
     "location": {"v1": lambda: Location(postal="100 Europa Dr., Chapel Hill, NC 27517"), "v2": lambda: Location(lat=35.5, lon=-79.25)},
     "maintenance_info": {"v1": lambda: _maint(w1="PreMaint"), "v2": lambda: _maint(w1="Maint", w2="Active")},
     "layer": {"v1": lambda: NSLayer.L2, "v2": lambda: NSLayer.L3},
